@@ -147,8 +147,10 @@ fn q_op_clone_diverge_remove() { body_clone_diverge(prebuilt(2, 2), 1, kani::any
 fn q_op_clone_diverge_realloc() { body_clone_diverge(prebuilt(2, 2), 2, kani::any()); }
 #[kani::proof]
 #[kani::unwind(6)]
-fn t_op_clone_diverge() {
-    let which: u8 = kani::any();
-    kani::assume(which < 5);
-    body_clone_diverge(state_q3(), which, kani::any());
-}
+fn t_op_clone_diverge_touch() { body_clone_diverge(prebuilt(3, 4), 0, kani::any()); }
+#[kani::proof]
+#[kani::unwind(6)]
+fn t_op_clone_diverge_clear() { body_clone_diverge(prebuilt(2, 4), 3, kani::any()); }
+#[kani::proof]
+#[kani::unwind(6)]
+fn t_op_clone_diverge_retain() { body_clone_diverge(prebuilt(2, 4), 4, kani::any()); }
